@@ -1,5 +1,6 @@
 import TxdbusModel.Proofs.Wire.TopLevel
 import TxdbusModel.Proofs.Wire.AlignSpec
+import TxdbusModel.Proofs.Wire.ConfTop
 /-!
 Property C02 - encoded bytes are exactly the DBus wire format, in both directions.
 
@@ -20,25 +21,25 @@ Property C02 - encoded bytes are exactly the DBus wire format, in both direction
 -/
 namespace Txdbus
 
-/-- `dbus_types` (generated) is the alignment table of the specification: exactly the 17 type codes (in any
-order, none twice), each with the specification's alignment. -/
+/-- `dbus_types` (generated) is the alignment table of the specification on the 17 type codes (rows for
+further codes, should a future type be added, are not constrained). -/
 theorem C02_alignTable :
-    Gen.Wire.alignTable.length = 17 ∧
     (∀ c ∈ Code.typeCodes, Gen.Wire.alignTable.lookup c = some (Spec.alignTable c)) ∧
-    ∀ p ∈ Gen.Wire.alignTable, p.1 ∈ Code.typeCodes ∧ Spec.alignTable p.1 = p.2 :=
+    ∀ p ∈ Gen.Wire.alignTable, p.1 ∈ Code.typeCodes → Spec.alignTable p.1 = p.2 :=
   Code.alignTable_eq_spec
 
-/-- The padding rule, for every type code of the table and every offset (not only 0..63). -/
-theorem C02_padding (c : Char) (a : Nat) (h : (c, a) ∈ Gen.Wire.alignTable) (off : Nat) :
+/-- The padding rule, for every one of the 17 type codes and every offset (not only 0..63).  It is a theorem
+about the hand-written `Code.padLenOf` (the model of `genpad` / `padding`); the tie of that model to the
+source is the exhaustive stream `padding-table` (offsets 0..63 decide any formula periodic in 8). -/
+theorem C02_padding (c : Char) (a : Nat) (h : (c, a) ∈ Gen.Wire.alignTable) (hc : c ∈ Code.typeCodes) (off : Nat) :
     Code.padLenOf c off = .ok ((a - off % a) % a) ∧ 0 < a ∧ (off + (a - off % a) % a) % a = 0 := by
   have hpos : 0 < a := by
-    have h2 := (Code.alignTable_eq_spec.2.2 (c, a) h).2
+    have h2 := Code.alignTable_eq_spec.2 (c, a) h hc
     simp only at h2
-    obtain ⟨hc, _⟩ := Code.alignTable_eq_spec.2.2 (c, a) h
     simp only [Code.typeCodes, List.mem_cons, List.not_mem_nil, or_false] at hc
     rcases hc with h | h | h | h | h | h | h | h | h | h | h | h | h | h | h | h | h <;> subst h <;>
       (rw [← h2]; decide)
-  exact ⟨Code.padLenOf_spec c a h off, hpos, padLen_aligned a off hpos⟩
+  exact ⟨Code.padLenOf_spec c a h hc off, hpos, padLen_aligned a off hpos⟩
 
 /-- `marshal` produces exactly the bytes the specification defines (see `Code.marshal_eq_spec`). -/
 theorem C02_encode (le : Bool) (ts : List Ty) (pv : PyVal) (items : List PyVal) (vs : List Val)
@@ -68,6 +69,61 @@ example :
       depthAll vs ≤ 2 := by
   refine ⟨by decide, by decide, ?_, by decide⟩
   simp [Code.fromSpecFields, Code.fromSpec, Code.fromSpecList]
+
+/-- `C02_encode` for the second formulation of conformance (`Code.Conf`, Proofs/Wire/Conf.lean): stated
+WITHOUT the code model's own item functions - the items of the variableList / of a struct are the elements of
+the list or tuple or the `dbusOrder` fields, the elements of an array are the elements of the list / tuple /
+bytearray IN ORDER, a dict denotes its items `(k, v)` IN ITERATION ORDER - and with `Boolean(0/1)` accepted
+for `b`.  So a code model that iterated a container in another order could not satisfy this statement. -/
+theorem C02_encode_conf (le : Bool) (ts : List Ty) (pv : PyVal) (items : List PyVal) (vs : List Val)
+    (fdl : List PyVal) (k' off : Nat) (bs : Bytes) (fuel : Nat)
+    (hitems : Code.structFields pv = some items) (hrep : Code.ConfFields fdl vs true ts items 0 k')
+    (henc : Spec.encodeAll Spec.alignTable (endianOf le) ts vs off = some bs) (hfuel : depthAll vs ≤ fuel) :
+    Code.marshal fuel (renderAll ts) pv off le (some []) = .ok (bs.length, bs, some (fdl.take k')) :=
+  Code.marshal_eq_spec_conf Spec.alignTable Code.padOK_spec Code.alignTable_pos le ts pv items vs fdl k' off bs fuel
+    hitems hrep henc hfuel
+
+/-- The same with EXECUTABLE hypotheses: whenever `Code.toSpecTop` (what the driver operation `specenc`
+runs on every generated case) reads the Python values as spec values `vs` with descriptors `fdl`, and the
+reference encoder accepts them, `marshal` produces the reference encoder's bytes. -/
+theorem C02_encode_checked (le : Bool) (n : Nat) (ts : List Ty) (pv : PyVal) (vs : List Val)
+    (fdl : List PyVal) (off : Nat) (bs : Bytes) (fuel : Nat)
+    (hchk : Code.toSpecTop n ts pv = some (vs, fdl))
+    (henc : Spec.encodeAll Spec.alignTable (endianOf le) ts vs off = some bs) (hfuel : depthAll vs ≤ fuel) :
+    Code.marshal fuel (renderAll ts) pv off le (some []) = .ok (bs.length, bs, some fdl) := by
+  obtain ⟨items, hitems, hrep⟩ := Code.toSpecTop_sound n ts pv vs fdl hchk
+  have h := C02_encode_conf le ts pv items vs fdl fdl.length off bs fuel hitems hrep henc hfuel
+  simpa using h
+
+/-- Satisfiable, with the specification's table: signature `ya(yx)bv`, values
+`(Byte(1), [(2, 3), [4, Int64(-5)]], Boolean(1), {'k': (1.5,)})` given as a TUPLE, big endian, offset 3:
+an array of 8-aligned structs at an odd offset, a `Boolean` wrapper, a variant holding a dict. -/
+example :
+    let ts : List Ty := [.basic .y, .array (.struct [.basic .y, .basic .x]), .basic .b, .variant]
+    let pv : PyVal := .tuple [.int .byte 1,
+      .list [.tuple [.int .plain 2, .int .plain 3], .list [.int .plain 4, .int .int64 (-5)]],
+      .int .boolean 1, .dict [(.str .plain ['k'], .tuple [.float 0x3FF8000000000000])]]
+    ∃ vs, Code.toSpecTop 20 ts pv = some (vs, []) ∧
+      (Spec.encodeAll Spec.alignTable (endianOf false) ts vs 3).isSome = true ∧ depthAll vs ≤ 5 := by
+  refine ⟨[.int 1, .array [.struct [.int 2, .int 3], .struct [.int 4, .int (-5)]], .bool true,
+    .variant (.array (.dict (.basic .s) (.struct [.basic .d])))
+      (.array [.entry (.str [107]) (.struct [.double 0x3FF8000000000000])])], ?_, by decide, by decide⟩
+  rfl
+
+/-- `C02_decode` for a dict, with the side condition spelled out: if the keys of the encoded entries are
+hashable and pairwise distinct (duplicates make a message corrupt per the specification), the array of dict
+entries decodes to the dict of exactly those pairs, in order. -/
+theorem C02_decode_dict (le : Bool) (fds : Code.Fds) (kt vt : Ty) (vs : List Val) (off : Nat)
+    (bs pre suf : Bytes) (pairs : List (PyVal × PyVal)) (fuel : Nat)
+    (hts : (Ty.array (.dict kt vt)).WF = true)
+    (henc : Spec.encodeAll Spec.alignTable (endianOf le) [.array (.dict kt vt)] [.array vs] off = some bs)
+    (hpre : pre.length = off)
+    (hval : Code.fromSpecList fds vs (.dict kt vt) = some (pairs.map fun p => .list [p.1, p.2]))
+    (hkeys : Code.DistinctKeys (pairs.map (·.1))) (hfuel : depthAll [.array vs] ≤ fuel) :
+    Code.unmarshal fuel (renderAll [.array (.dict kt vt)]) (pre ++ bs ++ suf) off le fds =
+      .ok (bs.length, [.dict pairs]) := by
+  apply C02_decode le fds _ _ off bs pre suf _ fuel (by simp [allWF, hts]) henc hpre _ hfuel
+  simp [Code.fromSpecFields, Code.fromSpec, hval, Code.dictOf_distinct pairs hkeys]
 
 /-! ### the layout rules, read off the reference encoder (every alignment table, both byte orders) -/
 
@@ -152,6 +208,20 @@ theorem layout_variant (A : AlignTable) (e : Endian) (t : Ty) (v : Val) (off : N
   simp only [Option.some.injEq] at h
   exact ⟨body, hbody, h.symm, padLen_aligned _ _⟩
 
+/-- DICT_ENTRY: the key and the value in sequence, each aligned (the entry itself is aligned to 8 by the
+array that holds it, see `layout_elems`) - identical to a STRUCT of two fields. -/
+theorem layout_dict_entry (A : AlignTable) (e : Endian) (kt vt : Ty) (k v : Val) (off : Nat) :
+    Spec.encode A e (.dict kt vt) (.entry k v) off = Spec.encodeFields A e [kt, vt] [k, v] off := by
+  simp only [Spec.encode, Spec.encodeFields]
+  cases Spec.encode A e kt k (off + padLen (A kt.code) off) with
+  | none => rfl
+  | some kb =>
+    simp only
+    cases Spec.encode A e vt v (off + padLen (A kt.code) off + kb.length +
+        padLen (A vt.code) (off + padLen (A kt.code) off + kb.length)) with
+    | none => rfl
+    | some vb => simp
+
 /-- STRUCT: the fields in sequence (the struct itself is aligned by its parent, see `layout_fields`). -/
 theorem layout_struct (A : AlignTable) (e : Endian) (fs : List Ty) (vs : List Val) (off : Nat) :
     Spec.encode A e (.struct fs) (.struct vs) off = Spec.encodeFields A e fs vs off := by
@@ -175,4 +245,8 @@ end Txdbus
 #print axioms Txdbus.layout_signature
 #print axioms Txdbus.layout_variant
 #print axioms Txdbus.layout_struct
+#print axioms Txdbus.layout_dict_entry
+#print axioms Txdbus.C02_encode_conf
+#print axioms Txdbus.C02_encode_checked
+#print axioms Txdbus.C02_decode_dict
 #print axioms Txdbus.layout_byte_order
